@@ -62,20 +62,59 @@ theorem inv_job_install {cfg : Cfg} {s : St} {d : Disk} (h : Inv cfg s d) {j : J
   have hmfd' : MfdOK (s.upd j' s.nextFile (applyEdit s.live e) (e.jn.getD s.stJn) (e.sq.getD s.stSq)
       s.manifestFd s.manifestOpen) d := MfdOK.of_fd (j := j') rfl hpc' hfd
   have hnbc : j'.pc.beforeCommit = true → False := by intro hb'; rw [hl] at hb'; cases hb'
-  have hshape := hok.shape
-  rw [he] at hshape
-  obtain ⟨_, _, _, _, hjs, _⟩ := hshape
-  obtain ⟨x, ex⟩ := Option.isSome_iff_exists.1 hjs
-  have hvjn : v.jn = x := by rw [m2, ex]; rfl
+  have hk'post : j'.pc.beforeCommit = false := by rw [hl]; rfl
+  -- the journals to remove lie below the journal number of the new view
+  have hnxv : ∀ n ∈ l, n < v.jn := by
+    intro n hn
+    by_cases hkc : j.kind = .compaction ∨ j.kind = .tr
+    · have hkind := hok.kind
+      unfold JobKindOK at hkind
+      rcases hkc with hkc | hkc <;> rw [hkc] at hkind
+      all_goals
+        rcases hlmem n hn with h1 | ⟨hk, _⟩
+        · rw [hkind.2.2.1] at h1; cases h1
+        · rw [hkc] at hk; cases hk
+    · obtain ⟨_, hjs, _⟩ := (hok.edit_nums he).2.1 (fun hx => hkc (Or.inl hx))
+      have hjs := hjs (fun hx => hkc (Or.inr hx))
+      obtain ⟨x, ex⟩ := Option.isSome_iff_exists.1 hjs
+      have hvjn : v.jn = x := by rw [m2, ex]; rfl
+      have hlt := h.rmJournals_lt hj he
+      rw [ex] at hlt
+      simp only [Option.getD_some] at hlt
+      rw [hvjn]
+      rcases hlmem n hn with h1 | ⟨hk, h2⟩
+      · exact hlt n h1
+      · -- `jcur` is the journal the final commit names
+        have hmk := hok.mkj
+        have hkind := hok.kind
+        unfold JobKindOK at hkind
+        rw [hk] at hkind
+        simp only at hkind
+        obtain ⟨_, hkind⟩ := hkind
+        rw [holds_iff] at hkind
+        obtain ⟨r, _, _, _, _, hkind⟩ := hkind
+        rw [holds_iff] at hkind
+        obtain ⟨y, hy, hkind⟩ := hkind
+        rw [he] at hkind
+        obtain ⟨hejn, _⟩ : e.jn = some y ∧ e.sq = some s.seq := hkind
+        rw [ex] at hejn; cases hejn
+        unfold MkJournalOK at hmk
+        rw [hy] at hmk
+        simp only at hmk
+        rw [if_neg (by rw [hpc]; rintro (h3 | h3) <;> cases h3)] at hmk
+        show n < x
+        rw [← hmk.2.1]; exact h2
   constructor
   · exact h.disk
   · exact h.mm
   · intro _
-    exact hb.of_same rfl (Nat.le_refl _) (Nat.le_refl _) (fun hr => ⟨hr, Nat.le_refl _⟩)
+    exact hb.of_same rfl (h.seqHi_step hj rfl rfl rfl k1 (fun hb' => (hnbc hb').elim)) (Nat.le_refl _)
+      (fun hr => ⟨hr, Nat.le_refl _⟩)
   · intro hr
     have hrun := h.run hr
     apply RunOK.job_step (d' := d) hrun j' s.nextFile _ _ _ s.manifestFd s.manifestOpen
-      (Nat.le_refl _) rfl ⟨hmfd', hrun.mfd.2⟩ hrun.nums.2 (fun hb' => (hnbc hb').elim)
+      (Nat.le_refl _) rfl ⟨hmfd', hrun.mfd.2⟩ hrun.nums.2
+      (hrun.hnc_post (j' := j') hok hj hr k1 hk'post (fun _ => views_refl hlv hlv))
     exact holds_of_some hparts.cur (holds_of_some hparts.hv0 (holds_of_some hparts.cur
       (holds_of_some hparts.hv0 (Nat.le_refl _))))
   · intro hr
@@ -91,8 +130,11 @@ theorem inv_job_install {cfg : Cfg} {s : St} {d : Disk} (h : Inv cfg s d) {j : J
       ⟨k1, k2, k3, k4, k5⟩ (by rw [hl]; exact ⟨(by intro x; cases x), rfl⟩) s.nextFile _ _ _ s.manifestFd
       s.manifestOpen (Nat.le_refl _) rfl (fun _ => rfl)
     · rcases hrt with ⟨h1, h2⟩ | ⟨h1, _⟩
-      · left; rw [h1]; exact hok.one.2.resolve_right h2
-      · right; rw [k1]; exact h1
+      · rcases hok.one.2 with h3 | h3 | h3
+        · left; rw [h1]; exact h3
+        · exact absurd h3 h2
+        · right; right; rw [k1]; exact h3
+      · right; left; rw [k1]; exact h1
     · unfold JobManifestOK
       rw [k4, he]
       simp only [hl, JobManifest]
@@ -111,39 +153,26 @@ theorem inv_job_install {cfg : Cfg} {s : St} {d : Disk} (h : Inv cfg s d) {j : J
       unfold RemovalsOK
       rw [hl]
       simp only
-      have hlt := h.rmJournals_lt hj he
-      rw [ex] at hlt
-      simp only [Option.getD_some] at hlt
-      have hnx : ∀ n ∈ l, n < x := by
+      refine ⟨fun n hn => ⟨Or.inl (hnxv n hn), fun y hy => ?_⟩, fun t ht => ?_, fun hkc => ?_⟩
+      rotate_right
+      · -- a compaction or a transaction removes no journal
+        rw [k1] at hkc
+        have hkind := hok.kind
+        unfold JobKindOK at hkind
+        apply List.eq_nil_iff_forall_not_mem.2
         intro n hn
-        rcases hlmem n hn with h1 | ⟨hk, h2⟩
-        · exact hlt n h1
-        · -- `jcur` is the journal the final commit names
-          have hmk := hok.mkj
-          have hkind := hok.kind
-          unfold JobKindOK at hkind
-          rw [hk] at hkind
-          simp only at hkind
-          obtain ⟨_, hkind⟩ := hkind
-          rw [holds_iff] at hkind
-          obtain ⟨r, _, _, _, _, hkind⟩ := hkind
-          rw [holds_iff] at hkind
-          obtain ⟨y, hy, hkind⟩ := hkind
-          rw [he] at hkind
-          obtain ⟨hejn, _⟩ : e.jn = some y ∧ e.sq = some s.seq := hkind
-          rw [ex] at hejn; cases hejn
-          unfold MkJournalOK at hmk
-          rw [hy] at hmk
-          simp only at hmk
-          rw [if_neg (by rw [hpc]; rintro (h3 | h3) <;> cases h3)] at hmk
-          show n < x
-          rw [← hmk.2.1]; exact h2
-      refine ⟨fun n hn => ⟨Or.inl (by rw [hvjn]; exact hnx n hn), fun y hy => ?_⟩, fun t ht => ?_⟩
+        rcases hkc with hkc | hkc <;> rw [hkc] at hkind
+        all_goals
+          rcases hlmem n hn with h1 | ⟨hk, _⟩
+          · rw [hkind.2.2.1] at h1; cases h1
+          · rw [hkc] at hk; cases hk
       · -- the journal `newMem` made is the one the edit names
         have hkind := hok.kind
         unfold JobKindOK at hkind
         rw [k3] at hy
-        rcases hok.kinds with hk | hk | hk <;> rw [hk] at hkind <;> simp only at hkind
+        rcases hok.kinds with hk | hk | hk | hk | hk <;> rw [hk] at hkind <;> simp only at hkind
+        rotate_right
+        · rw [hkind.2.1] at hy; cases hy
         · obtain ⟨_, hkind⟩ := hkind
           split at hkind
           · rw [hkind.2.2.2.2.1] at hy; cases hy
@@ -158,14 +187,42 @@ theorem inv_job_install {cfg : Cfg} {s : St} {d : Disk} (h : Inv cfg s d) {j : J
           rw [he] at hkind
           obtain ⟨hejn, _⟩ : e.jn = some z ∧ e.sq = some s.seq := hkind
           rw [hy] at hz; cases hz
-          rw [ex] at hejn; cases hejn
-          exact hnx n hn
+          have := hnxv n hn
+          rw [m2, hejn] at this
+          exact this
+        · rw [hkind.2.1] at hy; cases hy
       · rcases hrt with ⟨h1, hne⟩ | ⟨_, h2⟩
         · rw [h1] at ht
-          rcases hok.one.2 with h3 | h3
+          rcases hok.one.2 with h3 | h3 | h3
           · rw [h3] at ht; cases ht
           · exact absurd h3 hne
+          · -- a compaction removes its inputs: the edit deletes them
+            have hin := hok.inputs
+            rw [he] at hin
+            have hin : InputsOK s d j e := hin
+            unfold InputsOK at hin
+            rw [if_pos h3] at hin
+            obtain ⟨_, _, hdel, hdlt, _⟩ := hin
+            rw [← hdel] at ht
+            rw [m1]
+            intro hmem
+            rcases mem_applyEdit.1 hmem with ⟨_, hnd, _⟩ | hadd
+            · exact hnd ht
+            · have hsh := hok.shape
+              rw [he] at hsh
+              rw [hsh.1] at hadd
+              obtain ⟨o, ho, ho1⟩ := List.mem_map.1 hadd
+              have := hdlt t ht o ho
+              omega
         · rw [m1]; exact h2 t ht
     · intro hn; rw [he] at hn; cases hn
+    · intro hkc
+      rcases hrt with ⟨h1, _⟩ | ⟨hk, _⟩
+      · exact h1
+      · rcases hkc with hkc | hkc <;> rw [hkc] at hk <;> cases hk
+    · intro hb'; exact (hnbc hb').elim
+    · intro _
+      have := hok.committed (by rw [hpc]; rfl)
+      exact this
 
 end GoLevel.Dur
